@@ -413,6 +413,21 @@ impl IncWorld {
         }
     }
 
+    /// CurrentEpochRewardsShare: (global weight, address weight, share atomics)
+    pub fn share(&self, user: i64) -> Result<(u128, u128, String), String> {
+        let app = &self.app;
+        let inc = self.incentive.clone();
+        let name = self.name(user);
+        let r = std::panic::catch_unwind(std::panic::AssertUnwindSafe(|| {
+            app.wrap().query_wasm_smart::<incentive::RewardsShareResponse>(&inc, &incentive::QueryMsg::CurrentEpochRewardsShare { address: name })
+        }));
+        match r {
+            Ok(Ok(r)) => Ok((r.global_weight.u128(), r.address_weight.u128(), r.share.atomics().to_string())),
+            Ok(Err(e)) => Err(e.to_string()),
+            Err(_) => Err("PANIC".into()),
+        }
+    }
+
     /// the observation after an op, encoded exactly as CorrIncentive.observe
     pub fn observe(&self, ok: bool) -> Vec<String> {
         let mut o: Vec<String> = vec![if ok { "0".into() } else { "1".into() }];
@@ -452,6 +467,12 @@ impl IncWorld {
         for u in USER_IDS {
             match self.rewards(u) {
                 Ok(r) => { o.push("0".into()); o.push(r.len().to_string()); for (a, v) in r { o.push(a.to_string()); o.push(v.to_string()); } }
+                Err(_) => o.push("1".into()),
+            }
+        }
+        for u in USER_IDS {
+            match self.share(u) {
+                Ok((g, w, s)) => { o.push("0".into()); o.push(g.to_string()); o.push(w.to_string()); o.push(s); }
                 Err(_) => o.push("1".into()),
             }
         }
